@@ -28,7 +28,7 @@ def units(tier):
     terms = [(t, "T1") for t in G.tier1()] + [(t, "T2") for t in G.tier2(False)] + [(t, "T3") for t in G.tier3(False)] + [(t, "T4") for t in G.tier4()]
     if tier == "thorough":
         terms += [(t, "T5") for t in G.tier5(False)]
-    terms += [(t, "X") for t in extra_terms() + G.discard_terms()]
+    terms += [(t, "X") for t in extra_terms() + G.discard_terms() + G.zero_size_terms()]
     for ch in chunks(terms, 12):
         us.append({"kind": "terms", "terms": [[t, tn] for t, tn in ch]})
     for i in range(len(slots())):
